@@ -48,7 +48,7 @@ def panic_macro_of(t):
         return None
     macs = [m.split("::")[-1] for m in t.mac]
     name = None
-    for m in reversed(macs):   # outermost user-visible macro last in the backtrace
+    for m in macs:   # the backtrace lists the innermost expansion first: keep the outermost user-visible macro
         if m in ("panic", "unreachable", "todo", "unimplemented", "assert", "assert_eq", "assert_ne", "debug_assert", "debug_assert_eq", "debug_assert_ne"):
             name = m
     if name is None:
